@@ -126,6 +126,11 @@ func Destroy(k int, force, allow, keep bool) *sx.Node {
 	return sx.L(sx.A("destroy"), sx.I(k), sx.B(force), sx.B(allow), sx.B(keep))
 }
 
+// NewD: NewEnvironment k and, while its deployment is in flight, DestroyEnvironment on it.
+func NewD(k int, force, allow, keep bool) *sx.Node {
+	return sx.L(sx.A("newd"), sx.I(k), sx.B(force), sx.B(allow), sx.B(keep))
+}
+
 func (b *B) String() string {
 	return sx.L(sx.B(b.Reuse), sx.L(b.Envs...), sx.L(b.Rounds...)).String()
 }
@@ -208,6 +213,9 @@ func Shape(input string) (envs, rounds, ops, creates, destroys int) {
 				creates++
 			case "destroy":
 				destroys++
+			case "newd":
+				creates++
+				destroys++
 			}
 		}
 	}
@@ -247,6 +255,32 @@ func Shrink(input string) []string {
 			nr := sx.L(append(append([]*sx.Node{}, rd.List[:j]...), rd.List[j+1:]...)...)
 			rs := append(append(append([]*sx.Node{}, rounds[:i]...), nr), rounds[i+1:]...)
 			mk(rs)
+		}
+	}
+	return out
+}
+
+// OverlapTags reads the `(nd … OV)` results off an observation: one tag per newd operation saying whether the
+// destroy provably waited behind a transition of the creation (overlap-real:<transition>) or was not delayed
+// (overlap-sequential).
+func OverlapTags(input, obs string) []string {
+	n, err := sx.Parse(obs)
+	if err != nil {
+		return nil
+	}
+	var out []string
+	for _, rd := range n.List {
+		if rd.Len() < 1 {
+			continue
+		}
+		for _, res := range rd.At(0).List {
+			if res.Len() == 4 && res.At(0).Str() == "nd" {
+				if ov := res.At(3).Str(); ov == "-" {
+					out = append(out, "overlap-sequential")
+				} else {
+					out = append(out, "overlap-real:"+ov)
+				}
+			}
 		}
 	}
 	return out
